@@ -185,6 +185,33 @@ Proof. vm_compute. repeat split. Qed.
 Print Assumptions C16_options_dropped_refuted.
 
 (* ------------------------------------------------------------------------------------------------------------
+   7. Sub-columns.  base~i names column i of a multi-column feature `base`.  The default matcher of a root / data group
+      tests everything before the FIRST "~" of the requested name, so the producer of `base` claims base~i — and
+      every chained name built on it.
+      FULL STATEMENT (refuted, see C16_subcolumn_name_ambiguous_refuted): a chained name over the source base~i is
+      claimed by the operation's group only, like its option / JSON description.                                  *)
+Theorem C16_column_base : forall b rest, contains tilde b = false ->
+  column_base (b ++ tilde :: rest) = b /\ column_base b = b.
+Proof. intros b rest H; split; [apply column_base_tilde | apply column_base_plain]; exact H. Qed.
+Print Assumptions C16_column_base.
+
+Theorem C16_root_claims_every_tilde_name : forall sup b rest, contains tilde b = false ->
+  root_claims sup (b ++ tilde :: rest) = existsb (str_eqb b) sup.
+Proof. exact root_claims_tilde. Qed.
+Print Assumptions C16_root_claims_every_tilde_name.
+
+Theorem C16_subcolumn_name_ambiguous_refuted :
+  (* name notation: both the producer of "m" and the aggregation group claim m~1__sum_aggr *)
+  root_claims [lit "a"; lit "m"] (lit "m~1__sum_aggr") = true /\
+  match_criteria g_aggr (lit "m~1__sum_aggr") [] [] = Ok true /\
+  input_features g_aggr (lit "m~1__sum_aggr") [] [] = Ok [feat (lit "m~1")] /\
+  (* option notation of the same feature: only the aggregation group *)
+  root_claims [lit "a"; lit "m"] (lit "x") = false /\
+  resolve_step [g_aggr; g_mv] (wit_unhashable (PStr (lit "m~1"))) = SOne 0 (PStr (lit "sum")) [feat (lit "m~1")].
+Proof. vm_compute. repeat split. Qed.
+Print Assumptions C16_subcolumn_name_ambiguous_refuted.
+
+(* ------------------------------------------------------------------------------------------------------------
    Non-vacuity: the universe of the two built-in groups is well formed; a depth-3 chain in the three notations.   *)
 Definition ex_ph (n : nat) : str := lit "ph" ++ [ascii_of_nat (48 + n)].
 Definition ex_ops : list (nat * str) := [(1, lit "mean"); (0, lit "max"); (0, lit "sum")].
